@@ -471,3 +471,91 @@ def _word(seen, k):
         k, s = seen[k]
         w.append(s)
     return list(reversed(w))
+
+
+# ---------------------------------------------------------------------------
+# thorough tier: cross-check of the DFA construction against a direct interpretation of the EBNF tree
+# ---------------------------------------------------------------------------
+def ebnf_match(expr, word, i=0):
+    """Set of positions j such that ``expr`` derives word[i:j] (direct recursive interpretation)."""
+    k = expr[0]
+    if k == 'sym':
+        return {i + 1} if i < len(word) and word[i] == expr[1] else set()
+    if k == 'seq':
+        pos = {i}
+        for x in expr[1]:
+            nxt = set()
+            for p in pos:
+                nxt |= ebnf_match(x, word, p)
+            pos = nxt
+            if not pos:
+                break
+        return pos
+    if k == 'alt':
+        out = set()
+        for x in expr[1]:
+            out |= ebnf_match(x, word, i)
+        return out
+    if k == 'opt':
+        return {i} | ebnf_match(expr[1], word, i)
+    if k in ('star', 'plus'):
+        out = {i} if k == 'star' else set()
+        frontier = {i}
+        seen = set()
+        while frontier:
+            nxt = set()
+            for p in frontier:
+                for q in ebnf_match(expr[1], word, p):
+                    if q not in seen and q > p:
+                        seen.add(q)
+                        nxt.add(q)
+                    elif q == p and k == 'plus':
+                        out.add(q)
+            out |= nxt
+            frontier = nxt
+        return out
+    raise ValueError(k)
+
+
+def crosscheck_dfas(grammars, seed=0, maxlen=3, samples=40):
+    import random
+    rnd = random.Random(seed)
+    n_words = 0
+    n_rules = 0
+    for g in grammars:
+        for name, expr in g.rules.items():
+            d = g.dfas[name]
+            labels = sorted(d.labels())
+            n_rules += 1
+            words = [()]
+            frontier = [()]
+            L = maxlen if len(labels) <= 6 else 2
+            for _ in range(L):
+                frontier = [w + (a,) for w in frontier for a in labels]
+                words += frontier
+                if len(words) > 600:
+                    break
+            # random walks through the DFA (accepted and near-miss words)
+            for _ in range(samples):
+                st = d.start
+                w = []
+                for _ in range(rnd.randint(1, 9)):
+                    arcs = d.arcs[st]
+                    if not arcs or rnd.random() < 0.1:
+                        break
+                    lab = rnd.choice(sorted(arcs))
+                    w.append(lab)
+                    st = arcs[lab]
+                words.append(tuple(w))
+                if w and rnd.random() < 0.5:
+                    w2 = list(w)
+                    w2[rnd.randrange(len(w2))] = rnd.choice(labels)
+                    words.append(tuple(w2))
+            for w in words:
+                n_words += 1
+                want = len(w) in ebnf_match(expr, w)
+                got = d.accepts(w)
+                if want != got:
+                    raise AnalysisError('grammar engine cross-check failed: %s rule %s, word %s: EBNF says %s, DFA says %s'
+                                        % (g.name, name, ' '.join(w), want, got))
+    return {'rules': n_rules, 'words': n_words}
